@@ -511,7 +511,12 @@ def record_c07(binary, tier, seed):
 
 def replay_c07(path, binary):
     rp = json.load(open(path))
-    call = next((e for e in rp["unit"] if e.get("op") == "NewMnemonicCall"), None)
+    # the process is re-run with the word count of the failing call (the unit starts with a 24-word call)
+    k = rp.get("failing_event", 0)
+    fe = rp["unit"][k - 1] if 0 < k <= len(rp["unit"]) else {}
+    call = fe if fe.get("op") == "NewMnemonic" and fe.get("n", {}).get("fits") else None
+    if call is None:
+        call = next((e for e in reversed(rp["unit"]) if e.get("op") == "NewMnemonicCall"), None)
     if call is None:
         raise Infra("C07 replay file has no NewMnemonic call")
     d = vlib.scratch("verif-os-")
@@ -953,9 +958,10 @@ def run_tool(tool, binary, port, inputs, golden, label, d):
     """inputs: file -> bytes.  Returns Gen event lines."""
     ind, outd = os.path.join(d, "in"), os.path.join(d, "out")
     vlib.shutil.rmtree(ind, ignore_errors=True)
-    vlib.shutil.rmtree(outd, ignore_errors=True)
     os.makedirs(ind)
-    os.makedirs(os.path.join(outd, "internal", "wordlist"))
+    # the output directory is kept from run to run: like `make update-wordlist`, the tool regenerates over the
+    # files of the previous run (longer or shorter ones)
+    os.makedirs(os.path.join(outd, "internal", "wordlist"), exist_ok=True)
     for f, b in inputs.items():
         open(os.path.join(ind, f + ".txt"), "wb").write(b)
     _Srv.files = {f + ".txt": b for f, b in inputs.items()}
@@ -1008,6 +1014,9 @@ def replay_c17(path, binary):
     try:
         text = "".join(chr(u) if u >= 0 else "?" for u in ev["input"]).encode()
         d = vlib.scratch("verif-gen-")
+        # as in the recorded run, the tool regenerates over the (longer) output of an earlier run
+        longer = text + b"\n" + b"\n".join(b"zzzzzzzzzzzzzzzzzzzzzzzz" for _ in range(40)) + b"\n"
+        run_tool(tool, binary, srv.server_address[1], {f: longer for f in FILES}, False, "replay-previous-run", d)
         lines = run_tool(tool, binary, srv.server_address[1], {f: text for f in FILES}, False, "replay", d)
     finally:
         srv.shutdown()
